@@ -154,7 +154,7 @@ def _sched_cases(thorough: bool, seed: int) -> list[dict]:
     # directed: the schedules that widen the check-then-remove window of the data-cache error handler
     for n, st in ([(8, "D-half"), (4, "D-half"), (8, "both-mid"), (16, "D-half"), (2, "D-half")] if thorough else [(8, "D-half"), (4, "D-half")]):
         out.append({"kind": "sched", "n": n, "state": st, "plan": "rendezvous", "at": ["os.remove", "D"], "s": 0})
-    n_rand, n_rdv, n_hold, n_ws = (380, 170, 0, 60) if thorough else (30, 14, 8, 6)
+    n_rand, n_rdv, n_hold, n_ws = (330, 160, 0, 60) if thorough else (30, 14, 8, 6)
     for j in range(n_ws):
         out.append({"kind": "sched", "n": rng.choice([2, 3, 4]), "state": rng.choice(["cold", "valid", "D-half", "Q-mid", "both-mid", "D-frame", "clearing-warm"]),
                     "plan": "wstall", "delay_us": rng.choice([3000, 20000, 60000]), "s": rng.randrange(1 << 30)})
